@@ -416,17 +416,17 @@ def srcField (s : JS) (p : String × JS) (t : String) : Field :=
 
 /-- Go: a typed scalar property whose default / constant fits is held by `json.Marshal(New<Root>())` -/
 theorem C10_jsonschema_default_go_end_to_end_partial
-    (pkg : String) (defs : Defs) (fuel : Nat) (root : String) (S Sg : Schemas) (s : JS) (p : String × JS) (t : String)
+    (pkg : String) (defs : Defs) (fuel : Nat) (root name : String) (S Sg : Schemas) (s : JS) (p : String × JS) (t : String)
     (fuel' : Nat) (jg j : Json)
-    (hS : frontEnd pkg defs fuel (refTo root) = .ok S)
-    (hroot : lookupDef defs root = some s) (hobj : isObjectNode s = true) (hsorted : sortedKeys (propsOf s) = true)
+    (hS : frontEnd pkg defs fuel (refTo root) = .ok S) (hdecl : (Schemas.locateObject S pkg name).isSome = true)
+    (hroot : lookupDef defs name = some s) (hobj : isObjectNode s = true) (hsorted : sortedKeys (propsOf s) = true)
     (hp : p ∈ propsOf s) (hsc : scalarNode p.2 = some t)
-    (hP : Plain S = true) (hrun : runChain goChain S = .ok Sg) (hgo : goDefaults fuel' Sg pkg root = .ok jg)
+    (hP : Plain S = true) (hrun : runChain goChain S = .ok Sg) (hgo : goDefaults fuel' Sg pkg name = .ok jg)
     (hfit : goFits [] (srcField s p t) = true) (hj : declaredOf (srcField s p t) = some j) :
     holds jg p.1 j = true := by
-  obtain ⟨o, fs, f, ho, hty, hsp, hsn, hf, hname, hreq, hfty, hbuilt⟩ := keeps_property pkg defs fuel root S hS hroot hobj hp hsc
+  obtain ⟨o, fs, f, ho, hty, hsp, hsn, hf, hname, hreq, hfty, hbuilt⟩ := keeps_property pkg defs fuel root name S hS hdecl hroot hobj hp hsc
   rw [sortFields_id hsorted hbuilt] at hty
-  obtain ⟨hloc, hty'⟩ := chain_struct goChain (by decide) S Sg hP hrun pkg root o ho fs [] none Cog.Front.JsonSchema.m0 hty
+  obtain ⟨hloc, hty'⟩ := chain_struct goChain (by decide) S Sg hP hrun pkg name o ho fs [] none Cog.Front.JsonSchema.m0 hty
   have hscal : f.ty.isScalar = true := by rw [hfty, scalarOf_eq]; rfl
   obtain ⟨hn1, hr1, ht1⟩ := imgField_parts f
   have hsrc : (imgField f).ty = (srcField s p t).ty := by rw [ht1, srcField, hname, hreq, hfty]
@@ -437,7 +437,7 @@ theorem C10_jsonschema_default_go_end_to_end_partial
     apply defaults_namesNodup
     rw [vFields_names, Cog.Front.JsonSchema.fieldsBuilt_names hbuilt]
     exact Cog.Front.JsonSchema.sortedKeys_namesNodup hsorted
-  have := C10_go_partial fuel' Sg pkg root _ _ [] Cog.Front.JsonSchema.m0 jg (imgField f) j hgo hloc hty'
+  have := C10_go_partial fuel' Sg pkg name _ _ [] Cog.Front.JsonSchema.m0 jg (imgField f) j hgo hloc hty'
     (by simpa [setTy] using hsp) (by simpa [setTy] using hsn) hnd (vFields_mem_scalar hf hscal)
     (by rw [goFits_scalar_congr Sg [] _ _ hsrc hreq' (imgField_scalar hscal)]; exact hfit)
     (by rw [declaredOf_congr _ _ hsrc]; exact hj)
@@ -446,22 +446,22 @@ theorem C10_jsonschema_default_go_end_to_end_partial
 
 /-- Python: the same for `json.dumps(Root())` -/
 theorem C10_jsonschema_default_py_end_to_end_partial
-    (pkg : String) (defs : Defs) (fuel : Nat) (root : String) (S Sp : Schemas) (s : JS) (p : String × JS) (t : String)
+    (pkg : String) (defs : Defs) (fuel : Nat) (root name : String) (S Sp : Schemas) (s : JS) (p : String × JS) (t : String)
     (fuel' : Nat) (jp j : Json)
-    (hS : frontEnd pkg defs fuel (refTo root) = .ok S)
-    (hroot : lookupDef defs root = some s) (hobj : isObjectNode s = true) (hsorted : sortedKeys (propsOf s) = true)
+    (hS : frontEnd pkg defs fuel (refTo root) = .ok S) (hdecl : (Schemas.locateObject S pkg name).isSome = true)
+    (hroot : lookupDef defs name = some s) (hobj : isObjectNode s = true) (hsorted : sortedKeys (propsOf s) = true)
     (hp : p ∈ propsOf s) (hsc : scalarNode p.2 = some t)
-    (hP : PlainN S = true) (hrun : runChain pythonChain S = .ok Sp) (hpy : pyDefaults fuel' Sp pkg root = .ok jp)
+    (hP : PlainN S = true) (hrun : runChain pythonChain S = .ok Sp) (hpy : pyDefaults fuel' Sp pkg name = .ok jp)
     (hfit : pyFits [] (srcField s p t) = true) (hj : declaredOf (srcField s p t) = some j) :
     holds jp p.1 j = true := by
-  obtain ⟨o, fs, f, ho, hty, hsp, hsn, hf, hname, hreq, hfty, hbuilt⟩ := keeps_property pkg defs fuel root S hS hroot hobj hp hsc
+  obtain ⟨o, fs, f, ho, hty, hsp, hsn, hf, hname, hreq, hfty, hbuilt⟩ := keeps_property pkg defs fuel root name S hS hdecl hroot hobj hp hsc
   rw [sortFields_id hsorted hbuilt] at hty
   have hSp := pyChain_exact pythonChain (by decide) S Sp hP hrun
   have hnr : (fs.all fun f => nrTy f.ty) = true := by
     have := PlainN_located hP ho
     rw [hty] at this
     simpa [nrObjTy] using this
-  have hloc : Schemas.locateObject Sp pkg root = some (pyObj o) := by rw [hSp, locateObject_pyS, ho]; rfl
+  have hloc : Schemas.locateObject Sp pkg name = some (pyObj o) := by rw [hSp, locateObject_pyS, ho]; rfl
   have hty' := pyObj_struct o fs [] none Cog.Front.JsonSchema.m0 hty hnr
   have hscal : f.ty.isScalar = true := by rw [hfty, scalarOf_eq]; rfl
   obtain ⟨hn1, hr1, ht1⟩ := imgField_parts f
@@ -479,7 +479,7 @@ theorem C10_jsonschema_default_py_end_to_end_partial
       exact fixField_name' g
     rw [this, Cog.Front.JsonSchema.fieldsBuilt_names hbuilt]
     exact Cog.Front.JsonSchema.sortedKeys_namesNodup hsorted
-  have := C10_py_partial fuel' Sp pkg root _ _ [] none Cog.Front.JsonSchema.m0 jp (imgField f) j hpy hloc hty' hnd hmem
+  have := C10_py_partial fuel' Sp pkg name _ _ [] none Cog.Front.JsonSchema.m0 jp (imgField f) j hpy hloc hty' hnd hmem
     (by rw [pyFits_scalar_congr Sp [] _ _ hsrc (imgField_scalar hscal)]; exact hfit)
     (by rw [declaredOf_congr _ _ hsrc]; exact hj)
   rw [hn1, hname] at this
@@ -488,19 +488,19 @@ theorem C10_jsonschema_default_py_end_to_end_partial
 /-- schema property with a fitting default / constant ⇒ BOTH constructors hold it at that member, and for scalars the two
     encoded members are identical: defaults and constants survive front-end, chains and jennies -/
 theorem C10_jsonschema_default_end_to_end_partial
-    (pkg : String) (defs : Defs) (fuel : Nat) (root : String) (S Sg Sp : Schemas) (s : JS) (p : String × JS) (t : String)
+    (pkg : String) (defs : Defs) (fuel : Nat) (root name : String) (S Sg Sp : Schemas) (s : JS) (p : String × JS) (t : String)
     (fg fp : Nat) (jg jp j : Json)
-    (hS : frontEnd pkg defs fuel (refTo root) = .ok S)
-    (hroot : lookupDef defs root = some s) (hobj : isObjectNode s = true) (hsorted : sortedKeys (propsOf s) = true)
+    (hS : frontEnd pkg defs fuel (refTo root) = .ok S) (hdecl : (Schemas.locateObject S pkg name).isSome = true)
+    (hroot : lookupDef defs name = some s) (hobj : isObjectNode s = true) (hsorted : sortedKeys (propsOf s) = true)
     (hp : p ∈ propsOf s) (hsc : scalarNode p.2 = some t)
     (hPg : Plain S = true) (hPp : PlainN S = true)
     (hrg : runChain goChain S = .ok Sg) (hrp : runChain pythonChain S = .ok Sp)
-    (hgo : goDefaults fg Sg pkg root = .ok jg) (hpy : pyDefaults fp Sp pkg root = .ok jp)
+    (hgo : goDefaults fg Sg pkg name = .ok jg) (hpy : pyDefaults fp Sp pkg name = .ok jp)
     (hfg : goFits [] (srcField s p t) = true) (hfp : pyFits [] (srcField s p t) = true)
     (hj : declaredOf (srcField s p t) = some j) :
     holds jg p.1 j = true ∧ holds jp p.1 j = true ∧ (flat j = true → memberOf jg p.1 = memberOf jp p.1) := by
-  have h1 := C10_jsonschema_default_go_end_to_end_partial pkg defs fuel root S Sg s p t fg jg j hS hroot hobj hsorted hp hsc hPg hrg hgo hfg hj
-  have h2 := C10_jsonschema_default_py_end_to_end_partial pkg defs fuel root S Sp s p t fp jp j hS hroot hobj hsorted hp hsc hPp hrp hpy hfp hj
+  have h1 := C10_jsonschema_default_go_end_to_end_partial pkg defs fuel root name S Sg s p t fg jg j hS hdecl hroot hobj hsorted hp hsc hPg hrg hgo hfg hj
+  have h2 := C10_jsonschema_default_py_end_to_end_partial pkg defs fuel root name S Sp s p t fp jp j hS hdecl hroot hobj hsorted hp hsc hPp hrp hpy hfp hj
   exact ⟨h1, h2, fun hf => by rw [holds_flat_member hf h1, holds_flat_member hf h2]⟩
 
 /-- what the declared value IS, read off the source: the JSON of the source's constant (`const` / constant pattern), else of
